@@ -75,6 +75,12 @@ def gen_progs(rng, tier):
     setup = ["createdir 0:j61", "setatime 0:j61 777"]
     progs.append(conclib.Prog("c16o2", CFG, setup, [call_ops(rng, "open_read", "a", 0), call_ops(rng, "metadata", "a", 0)],
                               "explore 6000"))
+    # setters next to the calls that change or remove the same entry, all interleavings at the yield points
+    fsetup = ["createfile 0:j66", "hwrite 1000 6f6c64", "hdrop 1000"]
+    for j, other in enumerate(["create_file", "append", "remove_file", "set_mtime", "open_read"]):
+        progs.append(conclib.Prog("c16t%d" % j, CFG, fsetup, [call_ops(rng, "set_mtime", "f", 0) + ["setatime 0:j66 77"],
+                                                               call_ops(rng, other, "f", 0), call_ops(rng, "metadata", "f", 0)],
+                                  "explore 6000"))
     for i, entry in enumerate(directed):
         setup, ts = entry[0], entry[1:]
         threads = []
@@ -113,6 +119,13 @@ def gen_progs(rng, tier):
         (["createdir 0:j61"], [call_ops(rng, "create_file", "a/f", 0), ["createdir 0:j612f62", "readdir 0:j61"],
                                ["readdir 0:j61", "exists 0:j612f66", "metadata 0:j61"]]),
     ]
+    # a time setter next to a rewrite, an append and a removal of the same file: the file is large (a setter that copied the
+    # entry and stored the copy back would lose whatever happened in between; the larger the entry, the wider that window)
+    bigsetup = ["createfile 0:j66", "hwrite 1000 " + "6f" * 400000, "hdrop 1000"]
+    stress.append((bigsetup, [["setmtime 0:j66 4242", "setatime 0:j66 77", "setctime 0:j66 5"],
+                              call_ops(rng, "create_file", "f", 0), ["metadata 0:j66"]]))
+    stress.append((bigsetup, [["setatime 0:j66 77", "setmtime 0:j66 4242"], ["removefile 0:j66", "exists 0:j66"]]))
+    stress.append((bigsetup, [["setmtime 0:j66 4242", "setmtime 0:j66 4243"], ["setatime 0:j66 77", "setatime 0:j66 78"], ["metadata 0:j66"]]))
     for j, (setup, threads) in enumerate(stress):
         progs.append(conclib.Prog("c16s%d" % j, CFG, setup, threads, "stress %d,seq" % rounds))
     n = 40 if tier == "quick" else 400
@@ -137,7 +150,8 @@ RULE = ("all interleavings at lock-acquisition granularity (depth-first enumerat
         "for every schedule: results and final snapshot must be among those of the sequential interleavings of the same calls "
         "run on the real MemoryFS (results compared as Ok values / error), no panic, no deadlock; every explored schedule "
         "(a sample of 400 per program) is replayed on the Coq interleaved semantics and compared including the section labels; "
-        "plus 3 programs of 3-4 FREE-RUNNING OS threads (writers next to observers; 400 / 6000 rounds): threads that find the lock "
+        "plus time setters next to a rewrite, an append, a removal, another setter and a read of the same file (explored and free-running, the latter on a 400 kB file); "
+        "plus 6 programs of 2-4 FREE-RUNNING OS threads (writers next to observers; 400 / 6000 rounds): threads that find the lock "
         "held, which the cooperative scheduler never produces - every distinct outcome judged against the sequential orders")
 ASSUMPTIONS = ["interleavings finer than lock sections are irrelevant: all shared state of MemoryFS is behind the RwLock (no unsafe, no other shared state in memory.rs)",
                "OS scheduling and RwLock fairness are replaced by the cooperative scheduler",
